@@ -164,6 +164,10 @@ def has_check_type_in_type(type_: type, check_type: type) -> bool:
     """Return True if a given type is a subclass of check_type or a complex
     type that has a subclass of check_type among it's arguments."""
 
+    if is_new_type(type_):
+        # A NewType has no type arguments: look at the type it wraps
+        return has_check_type_in_type(unwrap_newtype(type_), check_type)
+
     try:
         if issubclass(type_, check_type):
             return True
@@ -312,6 +316,10 @@ def check_annotations(type_: type, node_base_type: type) -> bool:
         for field_name, field_type in cls_annotations.items():
             if is_classvar(field_type) or is_initvar(field_type) or is_dataclass_kw_only(type_):
                 continue
+
+            # Same as in get_field_types: the outermost NewType is transparent
+            if is_new_type(field_type):
+                field_type = unwrap_newtype(field_type)
 
             if has_check_type_in_type(field_type, node_base_type):
                 # Possible child field
